@@ -443,11 +443,15 @@ func init() {
 			go func() { exit <- cmd.Wait() }()
 			addr := fmt.Sprintf("127.0.0.1:%d", cfg.Server.Port)
 			up, exitedEarly := false, false
+			upNote := "the process never listened on its port"
 			for i := 0; i < 1000; i++ {
 				// only talk to the port once this very process holds it
 				if vh.PidListens(cmd.Process.Pid, cfg.Server.Port) {
-					if rs := vh.Do(addr, vh.RawReq{Method: "GET", Target: "/up", TimeoutMs: 2000}); rs.Status == 200 {
-						up = true
+					// a few attempts: on a loaded machine the first exchange through a fresh process can take seconds
+					for try := 0; try < 5 && !up; try++ {
+						rs := vh.Do(addr, vh.RawReq{Method: "GET", Target: "/up", TimeoutMs: 5000})
+						up = rs.Status == 200
+						upNote = fmt.Sprintf("status %d err %q", rs.Status, rs.Err)
 					}
 					break
 				}
@@ -464,7 +468,7 @@ func init() {
 					cmd.Process.Kill()
 					<-exit
 				}
-				o.Inconcl("binary did not come up (its port may have been taken by another process)")
+				o.Inconcl("binary did not come up (%s; exited early: %v; its port may have been taken by another process)", upNote, exitedEarly)
 				return
 			}
 			if c.UptimeMs > 0 {
